@@ -150,3 +150,140 @@ def validate_cells(ctx, path, case, max_cells=400):
             ctx.spec_fail("Spec.write*LeafCell / encodeRecord does not reproduce the cell SQLite wrote",
                           dict(case, page=pn, kind=kind, rowid=rowid), ans[:200], want[:200])
     return len(items)
+
+
+# ---------------------------------------------------------------------------------------------------------------
+# page level: Spec.PageLaidOut (executable form pageLaidOutB, proved equivalent) on the pages SQLite wrote
+# ---------------------------------------------------------------------------------------------------------------
+KINDS = {0x0D: "tableLeaf", 0x05: "tableInterior", 0x0A: "indexLeaf", 0x02: "indexInterior"}
+
+
+def read_payload(data, ps, usable, o, p, mx):
+    """-> (cols, chain, end offset of the cell) for a payload of p bytes starting at o"""
+    loc = local_size(usable, mx, p)
+    payload = bytearray(data[o:o + loc])
+    end = o + loc
+    chain = []
+    if loc < p:
+        nxt = struct.unpack(">I", data[end:end + 4])[0]
+        end += 4
+        rest = p - loc
+        while nxt and rest > 0 and nxt not in chain:
+            chain.append(nxt)
+            ob = (nxt - 1) * ps
+            take = min(rest, usable - 4)
+            payload += data[ob + 4:ob + 4 + take]
+            rest -= take
+            nxt = struct.unpack(">I", data[ob:ob + 4])[0]
+    hs, k = get_varint(payload, 0)
+    q = k
+    sts = []
+    while q < hs:
+        st, k = get_varint(payload, q)
+        sts.append(st)
+        q += k
+    cols = []
+    body = hs
+    for st in sts:
+        ln = serial_len(st)
+        if ln is None:
+            raise ValueError("reserved serial type")
+        cols.append((st, bytes(payload[body:body + ln])))
+        body += ln
+    if body != p:
+        raise ValueError("record does not fill its payload")
+    return cols, chain, end
+
+
+def cols_text(cols):
+    return "/".join(f"{st}:{c.hex() or '-'}" for st, c in cols) or "."
+
+
+def page_layout_line(data, ps, usable, pn):
+    base = (pn - 1) * ps
+    hoff = 100 if pn == 1 else 0
+    h = base + hoff
+    t = data[h]
+    kind = KINDS[t]
+    interior = t in (0x05, 0x02)
+    first_fb, ncells, cs, frag = struct.unpack(">HHHB", data[h + 1:h + 8])
+    cs = cs or 65536
+    rm = struct.unpack(">I", data[h + 8:h + 12])[0] if interior else 0
+    pa = h + (12 if interior else 8)
+    ptrs = [struct.unpack(">H", data[pa + 2 * i:pa + 2 * i + 2])[0] for i in range(ncells)]
+    cells = []
+    for ptr in ptrs:
+        o = base + ptr
+        if t == 0x05:
+            lc = struct.unpack(">I", data[o:o + 4])[0]
+            key, k = get_varint(data, o + 4)
+            if key >= 1 << 63:
+                key -= 1 << 64
+            cells.append(f"TI;{lc};{key}")
+            continue
+        lc = None
+        if t == 0x02:
+            lc = struct.unpack(">I", data[o:o + 4])[0]
+            o += 4
+        p, k = get_varint(data, o)
+        o += k
+        rowid = None
+        if t == 0x0D:
+            rowid, k = get_varint(data, o)
+            o += k
+            if rowid >= 1 << 63:
+                rowid -= 1 << 64
+        mx = usable - 35 if t == 0x0D else (usable - 12) * 64 // 255 - 23
+        cols, chain, end = read_payload(data, ps, usable, o, p, mx)
+        ov = ",".join(map(str, chain)) or "-"
+        if t == 0x0D:
+            cells.append(f"TL;{rowid};{ov};{cols_text(cols)}")
+        elif t == 0x0A:
+            cells.append(f"IL;{ov};{cols_text(cols)}")
+        else:
+            cells.append(f"II;{lc};{ov};{cols_text(cols)}")
+    fbs = []
+    nxt = first_fb
+    while nxt and len(fbs) < 20000:
+        n2, sz = struct.unpack(">HH", data[base + nxt:base + nxt + 4])
+        fbs.append(f"{nxt}:{sz}")
+        nxt = n2
+    page = data[base:base + ps]
+    return (f"spec.page {usable} {hoff} {kind} {cs} {frag} {rm} {','.join(map(str, ptrs)) or '-'} {','.join(fbs) or '-'} "
+            f"{'|'.join(cells) or '-'} {page.hex()}"), kind, len(cells), bool(fbs), frag
+
+
+def validate_pages(ctx, path, case, max_pages=14, max_page_size=8192):
+    """Spec.PageLaidOut holds of the b-tree pages SQLite wrote (live pages by dbstat; sampled)"""
+    data = open(path, "rb").read()
+    if len(data) < 100:
+        return 0
+    ps = struct.unpack(">H", data[16:18])[0]
+    ps = 65536 if ps == 1 else ps
+    usable = ps - data[20]
+    if usable != ps or ps > max_page_size:
+        return 0
+    con = sqlite3.connect(f"file:{path}?mode=ro", uri=True)
+    try:
+        live = [r[0] for r in con.execute("SELECT pageno FROM dbstat WHERE pagetype IN ('leaf','internal') ORDER BY pageno")]
+    except sqlite3.DatabaseError:
+        return 0
+    finally:
+        con.close()
+    if len(live) > max_pages:
+        live = live[:4] + ctx.rng.sample(live[4:], max_pages - 4)
+    lines, meta = [], []
+    for pn in live:
+        try:
+            line, kind, ncells, has_fb, frag = page_layout_line(data, ps, usable, pn)
+        except (IndexError, struct.error, ValueError, TypeError, KeyError) as e:
+            ctx.spec_fail("the independent reader cannot read a live b-tree page", dict(case, page=pn), repr(e), None)
+            continue
+        lines.append(line)
+        meta.append((pn, kind, ncells, has_fb, frag))
+    for (pn, kind, ncells, has_fb, frag), ans in zip(meta, driver.ask(lines)):
+        ctx.branch(f"spec-page:{kind}" + (":freeblocks" if has_fb else "") + (":fragments" if frag else ""))
+        if ans.strip() != "ok true":
+            ctx.spec_fail("Spec.PageLaidOut does not hold of a b-tree page SQLite wrote",
+                          dict(case, page=pn, kind=kind, cells=ncells), ans[:100], "ok true")
+    return len(lines)
